@@ -374,7 +374,31 @@ class Interp:
                 rel.add((id(b), id(a)))
         return res
 
+    def _last_nonzero_byte(self, op, a, b):
+        """the bytes of an integer that cannot be 0 are not all 0: once every sibling byte was assumed 0 on this path, this one is not"""
+        if not (is_sym(a) and a.op == "byte" and b == 0 and op in ("Eq", "Ne") and len(a.args) == 2 and isinstance(a.args[1], int)):
+            return None
+        v, i = a.args
+        src = a.attrs.get("src")
+        n = src[3] if src and src[3] else None
+        if n is None or not is_sym(v) and v == 0:
+            return None
+        lo, hi = bounds(v) if is_sym(v) else (v, v)
+        if lo is None or hi is None or lo <= 0 <= hi:
+            return None
+        for j in range(n):
+            if j == i:
+                continue
+            sib = Sym("byte", (v, j), "u8")
+            eqk, nek = Sym("Eq", (sib, 0), "bool").key(), Sym("Ne", (sib, 0), "bool").key()
+            if not (self.run.atoms.get(eqk) is True or self.run.atoms.get(nek) is False):
+                return None
+        return op == "Ne"
+
     def decide_cmp(self, op, a, b):
+        d0 = self._last_nonzero_byte(op, a, b)
+        if d0 is not None:
+            return d0
         if hasattr(a, "cmp_with") :
             return a.cmp_with(self, op, b)
         if hasattr(b, "cmp_with"):
@@ -690,6 +714,8 @@ class Interp:
             return f64_from_bits(v["fbits"]) if v["fsize"] == 8 else f32_from_bits(v["fbits"])
         if "fn" in v:
             return FnItem(v["fn"])
+        if "fnptr" in v:
+            return FnItem(v["fnptr"])          # function pointer constant (fn item or non-capturing closure coerced to `fn`)
         if "bytes" in v:
             b = Bytes([("lit", bytes(v["bytes"]))], is_str=("str" in v) or ty.endswith("str"))
             return Ref(Box_(b, "const"), ())
@@ -1062,9 +1088,24 @@ class Interp:
             return t["otherwise"]
         raise self.unanalysable("switch on %r" % (v,))
 
+    def closure_by_span(self, tystr):
+        """`{closure@src/x.rs:120:32: 120:35}` -> key of that closure body (unique by file and line)"""
+        m = re.match(r"\{closure@([^:]+):(\d+):(\d+)", tystr or "")
+        if not m:
+            return None
+        hits = [k for k, b in self.prog.bodies.items() if b.get("kind") == "closure" and (b.get("span") or {}).get("file") == m.group(1)
+                and (b.get("span") or {}).get("line") == int(m.group(2))]
+        return hits[0] if len(hits) == 1 else None
+
     def call_callee(self, f, argv):
         res = f.get("res") or {}
         rpath = res.get("path")
+        if res.get("kind") == "closure_once_shim" or (f.get("path", "").endswith(("FnOnce::call_once", "FnMut::call_mut", "Fn::call"))
+                                                       and (f.get("args") or [""])[0].startswith("{closure@") and not argv[:1] == [None]):
+            # a non-capturing closure used through a function pointer: the callee is the closure body itself
+            key = self.closure_by_span((f.get("args") or [""])[0])
+            if key is not None and not (argv and isinstance(argv[0], (Agg, Ref)) and getattr(self.load(argv[0]) if isinstance(argv[0], Ref) else argv[0], "adt", None) == "closure"):
+                return self.call_closure(Agg("closure", key, []), list(argv))
         # 1. local body (resolved impl or the item itself)
         for cand in (rpath, f.get("path")):
             if cand and cand in self.prog.bodies and res.get("kind") in (None, "item", "closure_once_shim", "reify_shim"):
@@ -1077,6 +1118,15 @@ class Interp:
         m = self.models.lookup(f)
         if m is not None:
             return m(self, f, argv)
+        # a tuple-variant / tuple-struct constructor used as a function (`map_err(MyError::Io)`)
+        pth = f.get("path") or ""
+        if "::" in pth and res.get("kind") in (None, "item"):
+            adt_name, vn = pth.rsplit("::", 1)
+            cands = [k for k in self.prog.adts if k == adt_name or k.endswith("::" + adt_name) or adt_name.endswith("::" + k)]
+            if len(cands) == 1:
+                for v in self.prog.adts[cands[0]]["variants"]:
+                    if v["name"] == vn and len(v["fields"]) == len(argv):
+                        return Agg(cands[0], v["idx"], list(argv), v["discr"] if v.get("discr") is not None else v["idx"], vn)
         # a call on `Self` inside a provided trait method of a crate-local trait: with exactly one implementor the
         # callee is that implementor's item (or the provided body when it does not override it)
         if f.get("trait") and res.get("kind") in (None, "unresolved"):
